@@ -2531,10 +2531,22 @@ void abbreviation_from_bracket(const char * source, scratch_pad * scratch, token
 
 
 void read_table_column_alignments(const char * source, token * table, scratch_pad * scratch) {
-	token * walker = table->child->child;
+	token * walker = table->child;
 
 	scratch->table_alignment[0] = '\0';
 	scratch->table_column_count = 0;
+
+	// The header is normally the first child, but a list marker may precede it
+	// when the table is the first thing in a list item
+	while (walker && (walker->type != BLOCK_TABLE_HEADER)) {
+		walker = walker->next;
+	}
+
+	if (walker == NULL) {
+		return;
+	}
+
+	walker = walker->child;
 
 	if (walker == NULL) {
 		return;
